@@ -256,3 +256,329 @@ pub fn replay_optimizer(case: &Value, rep: &mut Report, rng: &mut Rng) {
         }
     }
 }
+
+// ------------------------------------------------------------------------------------------------
+// Group "objective" (C06)
+// ------------------------------------------------------------------------------------------------
+
+fn shaped(shape: &[usize], v: &[f32]) -> Tensor {
+    if shape.len() == 1 {
+        Tensor::single(v.to_vec())
+    } else {
+        crate::tensors::triple_rowmajor(shape, v)
+    }
+}
+
+fn check_objective(case: &Value, t: &[f32], p: &[f32], mode: &str, rep: &mut Report, id: &str) {
+    let obj = str_of(case, "obj");
+    let shape = usizes(&case["shape"]);
+    let n = t.len();
+    let empty = Env::new();
+    let clamp = match case["clamp"].as_array() {
+        Some(c) if c.len() == 2 => Some((eval(&c[0], &empty), eval(&c[1], &empty))),
+        _ => None,
+    };
+    let f = neurons::objective::Function::create(crate::nets::objective_kind(obj), clamp);
+    let (pt, tt) = (shaped(&shape, p), shaped(&shape, t));
+    rep.checks += 1;
+    let (loss, grad) = match guarded(|| f.loss(&pt, &tt)) {
+        Ok(r) => r,
+        Err(e) => {
+            rep.mismatch("C06", "loss_panicked", id, json!({"panic": e, "mode": mode}), case);
+            return;
+        }
+    };
+    let mut env = Env::new();
+    for i in 0..n {
+        env.insert(format!("p{}", i + 1), p[i]);
+        env.insert(format!("t{}", i + 1), t[i]);
+    }
+    let want_loss = eval(&case["loss"], &env);
+    if !loss.is_finite() {
+        rep.mismatch("C06", "loss_not_finite", id, json!({"mode": mode, "loss": format!("{}", loss), "expected": want_loss, "t": t, "p": p}), case);
+        return;
+    }
+    if !close(loss, want_loss, 1e-5) {
+        rep.mismatch("C06", "loss_value", id, json!({"mode": mode, "observed": loss, "expected": want_loss, "t": t, "p": p}), case);
+        return;
+    }
+    // shape of the gradient = shape of the prediction
+    if data_dims(&grad.data) != shape || shape_dims(&grad.shape) != shape {
+        rep.mismatch("C06", "gradient_shape", id, json!({"mode": mode, "expected": shape, "observed": data_dims(&grad.data)}), case);
+        return;
+    }
+    let g = flat(&grad);
+    for i in 0..n {
+        let want = eval(&case["grad"][i], &env);
+        if !close(g[i], want, 1e-5) {
+            rep.mismatch(
+                "C06",
+                if clamp.is_some() { "clamped_gradient_value" } else { "gradient_value" },
+                id,
+                json!({"mode": mode, "element": i, "observed": g[i], "expected": want, "t": t, "p": p, "clamp": clamp.map(|c| vec![c.0, c.1])}),
+                case,
+            );
+            return;
+        }
+        if let Some((lo, hi)) = clamp {
+            if !(g[i] >= lo && g[i] <= hi) {
+                rep.mismatch("C06", "gradient_outside_clamp", id, json!({"element": i, "observed": g[i]}), case);
+                return;
+            }
+        }
+    }
+    // the gradient is the derivative of the reported loss (specification's symbolic derivative)
+    if let Some(d) = case["dloss"].as_array() {
+        if mode == "grid" || mode == "random-smooth" {
+            for i in 0..d.len() {
+                let want = eval(&d[i], &env);
+                if want.is_finite() && !close(g[i], want, 2e-4) {
+                    rep.mismatch("C06", "gradient_is_not_derivative_of_loss", id, json!({"mode": mode, "element": i, "observed": g[i], "derivative": want, "t": t, "p": p}), case);
+                    return;
+                }
+            }
+        }
+    }
+}
+
+pub fn replay_objective(case: &Value, rep: &mut Report, rng: &mut Rng) {
+    let obj = str_of(case, "obj");
+    let t: Vec<f32> = case["t"].as_array().unwrap().iter().map(rat).collect();
+    let p: Vec<f32> = case["p"].as_array().unwrap().iter().map(rat).collect();
+    let id = format!("objective:{}:{}:clamp{}:t{}:p{}", obj, case["shape"], case["clamp"].as_array().map(|a| a.len()).unwrap_or(0), case["t"], case["p"]);
+    rep.nontrivial(id.clone());
+    check_objective(case, &t, &p, "grid", rep, &id);
+    // the same formulas on harness-chosen in-domain floats
+    let prob = matches!(obj, "ce" | "bce" | "kl");
+    let n = t.len();
+    let rt: Vec<f32> = (0..n).map(|_| if prob { 0.02 + 0.96 * rng.unit() } else { rng.unit() * 6.0 - 3.0 }).collect();
+    let rp: Vec<f32> = (0..n).map(|_| if prob { 0.02 + 0.96 * rng.unit() } else { rng.unit() * 6.0 - 3.0 }).collect();
+    check_objective(case, &rt, &rp, "random-smooth", rep, &id);
+}
+
+// ------------------------------------------------------------------------------------------------
+// Group "activation" (C07)
+// ------------------------------------------------------------------------------------------------
+
+pub type Env64 = HashMap<String, f64>;
+
+/// Double-precision evaluation of a term (reference values for the smooth activations).
+pub fn eval64(t: &Value, env: &Env64) -> f64 {
+    let op = t["op"].as_str().expect("term op");
+    let a = || eval64(&t["a"], env);
+    let b = || eval64(&t["b"], env);
+    match op {
+        "leaf" => env[t["name"].as_str().unwrap()],
+        "const" => t["n"].as_i64().unwrap() as f64 / t["d"].as_i64().unwrap() as f64,
+        "add" => a() + b(),
+        "sub" => a() - b(),
+        "mul" => a() * b(),
+        "div" => a() / b(),
+        "neg" => -a(),
+        "sq" => { let x = a(); x * x }
+        "sqrt" => a().sqrt(),
+        "exp" => a().exp(),
+        "ln" => a().ln(),
+        "abs" => a().abs(),
+        "sign" => { let x = a(); if x > 0.0 { 1.0 } else if x < 0.0 { -1.0 } else { 0.0 } }
+        "tanh" => a().tanh(),
+        "cosh" => a().cosh(),
+        "max" => a().max(b()),
+        "min" => a().min(b()),
+        "powi" => a().powi(b() as i32),
+        "ifpos" => if eval64(&t["c"], env) > 0.0 { a() } else { b() },
+        _ => panic!("harness: unknown term op {}", op),
+    }
+}
+
+fn point(p: &Value) -> f32 {
+    let s = p.get("s").and_then(|s| s.as_i64()).unwrap_or(1) as f32;
+    match str_of(p, "k") {
+        "k8" => p["v"].as_i64().unwrap() as f32 / 8.0,
+        "pow2" => s * (2.0f64.powi(p["e"].as_i64().unwrap() as i32) as f32),
+        "max" => s * f32::MAX,
+        "minnormal" => s * f32::MIN_POSITIVE,
+        "zero" => s * 0.0,
+        k => panic!("harness: unknown point kind {}", k),
+    }
+}
+
+fn as_rank(rank: u64, v: &[f32]) -> Tensor {
+    if rank == 1 {
+        Tensor::single(v.to_vec())
+    } else {
+        // 3-D: two channels when the length is even, rows of the remaining elements
+        let c = if v.len() % 2 == 0 && v.len() >= 2 { 2 } else { 1 };
+        crate::tensors::triple_rowmajor(&[c, 1, v.len() / c], v)
+    }
+}
+
+/// Exactly-representable single-operation activations are compared bitwise, smooth ones against the
+/// double-precision value of the specification's term.
+fn act_close(act: &str, got: f32, want64: f64, want32: f32) -> bool {
+    match act {
+        "relu" | "leaky" | "linear" => got.to_bits() == want32.to_bits() || (got == 0.0 && want32 == 0.0),
+        _ => (got as f64 - want64).abs() <= 1e-5 * want64.abs().max(1.0),
+    }
+}
+
+fn check_elementwise(act: &str, dir: &str, term: &Value, range: &Value, kink: bool, xs: &[f32], ys: &[f32]) -> Option<Value> {
+    let empty = Env::new();
+    let (lo, hi) = match range.as_array() {
+        Some(r) if r.len() == 2 => (eval(&r[0], &empty), eval(&r[1], &empty)),
+        _ => (f32::NEG_INFINITY, f32::INFINITY),
+    };
+    for (x, y) in xs.iter().zip(ys.iter()) {
+        if kink && *x == 0.0 {
+            continue;
+        }
+        if !y.is_finite() {
+            return Some(json!({"what": "not finite", "x": x, "bits": x.to_bits(), "y": format!("{}", y), "dir": dir}));
+        }
+        if !(*y >= lo && *y <= hi) {
+            return Some(json!({"what": "outside range", "x": x, "y": y, "range": [lo, hi], "dir": dir}));
+        }
+        let mut e64 = Env64::new();
+        e64.insert("x".to_string(), *x as f64);
+        let mut e32 = Env::new();
+        e32.insert("x".to_string(), *x);
+        let (w64, w32) = (eval64(term, &e64), eval(term, &e32));
+        if w64.is_finite() && !act_close(act, *y, w64, w32) {
+            return Some(json!({"what": "value", "x": x, "bits": x.to_bits(), "observed": y, "expected": w64, "dir": dir}));
+        }
+    }
+    None
+}
+
+fn softmax_ref(x: &[f32]) -> Vec<f64> {
+    let m = x.iter().cloned().fold(f32::NEG_INFINITY, f32::max) as f64;
+    let e: Vec<f64> = x.iter().map(|v| (*v as f64 - m).exp()).collect();
+    let s: f64 = e.iter().sum();
+    e.iter().map(|v| v / s).collect()
+}
+
+pub fn replay_activation(case: &Value, rep: &mut Report) {
+    use neurons::activation::Function;
+    match str_of(case, "kind") {
+        "elementwise" => {
+            let act = str_of(case, "act");
+            let dir = str_of(case, "dir");
+            let rank = case["rank"].as_u64().unwrap();
+            let id = format!("activation:{}:{}:rank{}:{}", act, dir, rank, str_of(case, "class"));
+            rep.nontrivial(id.clone());
+            let xs: Vec<f32> = case["points"].as_array().unwrap().iter().map(point).collect();
+            let input = as_rank(rank, &xs);
+            let f = Function::create(&crate::layers::activation(act));
+            rep.checks += xs.len() as u64;
+            let out = match guarded(|| if dir == "forward" { f.forward(&input) } else { f.backward(&input) }) {
+                Ok(o) => o,
+                Err(e) => {
+                    rep.mismatch("C07", "activation_panicked", &id, json!({"panic": e}), case);
+                    return;
+                }
+            };
+            if data_dims(&out.data) != data_dims(&input.data) || shape_dims(&out.shape) != shape_dims(&input.shape) {
+                rep.mismatch("C07", "output_shape", &id, json!({"input": data_dims(&input.data), "output": data_dims(&out.data)}), case);
+                return;
+            }
+            let ys = flat(&out);
+            if let Some(d) = check_elementwise(act, dir, &case["term"], &case["range"], bool_of(case, "kink"), &xs, &ys) {
+                rep.mismatch("C07", &format!("{}_{}", dir, d["what"].as_str().unwrap().replace(' ', "_")), &id, d, case);
+                return;
+            }
+            // backward = derivative of the forward definition (symbolic derivative from the specification)
+            if let Some(sym) = case["symbolic"].as_array().and_then(|a| a.first()) {
+                for (x, y) in xs.iter().zip(ys.iter()) {
+                    if bool_of(case, "kink") && *x == 0.0 {
+                        continue;
+                    }
+                    let mut e64 = Env64::new();
+                    e64.insert("x".to_string(), *x as f64);
+                    let w = eval64(sym, &e64);
+                    if w.is_finite() && (*y as f64 - w).abs() > 1e-5 * w.abs().max(1.0) {
+                        rep.mismatch("C07", "backward_is_not_the_derivative_of_forward", &id, json!({"x": x, "observed": y, "derivative": w}), case);
+                        return;
+                    }
+                }
+            }
+        }
+        "softmax" | "softmax-huge" => {
+            let f = Function::create(&neurons::activation::Activation::Softmax);
+            let (xs, base): (Vec<f32>, Option<Vec<f32>>) = if str_of(case, "kind") == "softmax" {
+                let b = vec1(&case["base"]);
+                let sh = case["shift"].as_i64().unwrap() as f32;
+                (b.iter().map(|v| v + sh).collect(), Some(b))
+            } else {
+                (case["entries"].as_array().unwrap().iter().map(point).collect(), None)
+            };
+            let rank = case.get("rank").and_then(|r| r.as_u64()).unwrap_or(1);
+            let id = format!("activation:softmax:{:?}:rank{}", xs, rank);
+            rep.nontrivial(id.clone());
+            rep.checks += 1;
+            let input = if rank == 1 { Tensor::single(xs.clone()) } else { crate::tensors::triple_rowmajor(&[1, 1, xs.len()], &xs) };
+            let out = match guarded(|| f.forward(&input)) {
+                Ok(o) => o,
+                Err(e) => {
+                    rep.mismatch("C07", "softmax_panicked", &id, json!({"panic": e}), case);
+                    return;
+                }
+            };
+            let ys = flat(&out);
+            let sum: f32 = ys.iter().sum();
+            if ys.len() != xs.len() || data_dims(&out.data) != data_dims(&input.data) {
+                rep.mismatch("C07", "output_shape", &id, json!({"output": data_dims(&out.data)}), case);
+            } else if ys.iter().any(|y| !y.is_finite() || *y < 0.0) || (sum - 1.0).abs() > 1e-5 {
+                rep.mismatch("C07", "softmax_not_a_distribution", &id, json!({"x": xs, "y": ys.iter().map(|y| format!("{}", y)).collect::<Vec<_>>(), "sum": format!("{}", sum)}), case);
+            } else {
+                let r = softmax_ref(&xs);
+                if ys.iter().zip(r.iter()).any(|(y, w)| (*y as f64 - w).abs() > 1e-6) {
+                    rep.mismatch("C07", "softmax_value", &id, json!({"x": xs, "y": ys, "expected": r}), case);
+                } else if let Some(b) = base {
+                    // invariance under adding a constant to all inputs
+                    let y0 = flat(&f.forward(&Tensor::single(b.clone())));
+                    if ys.iter().zip(y0.iter()).any(|(a, b)| (a - b).abs() > 1e-6) {
+                        rep.mismatch("C07", "softmax_not_shift_invariant", &id, json!({"x": xs, "y": ys, "unshifted": y0}), case);
+                    }
+                }
+            }
+        }
+        k => panic!("harness: unknown activation case kind {}", k),
+    }
+}
+
+/// Sweep over single-precision bit patterns (every `stride`-th finite pattern; stride 1 = all 2^32):
+/// forward and backward of every element-wise activation against the specification's terms and ranges.
+pub fn sweep_activations(rep: &mut Report, stride: u64, cases: &[Value]) {
+    use neurons::activation::Function;
+    use rayon::prelude::*;
+    let chunk: u64 = 1 << 16;
+    let chunks: Vec<u64> = (0..(1u64 << 32) / chunk).collect();
+    for case in cases {
+        if str_of(case, "kind") != "elementwise" || str_of(case, "class") != "extreme" || case["rank"] != 1 {
+            continue;
+        }
+        let act = str_of(case, "act");
+        let dir = str_of(case, "dir");
+        let f = Function::create(&crate::layers::activation(act));
+        let bad: Vec<Value> = chunks
+            .par_iter()
+            .filter_map(|c| {
+                let start = c * chunk;
+                let first = if start % stride == 0 { start } else { start + (stride - start % stride) };
+                let xs: Vec<f32> = (first..start + chunk).step_by(stride as usize).map(|b| f32::from_bits(b as u32)).filter(|x| x.is_finite()).collect();
+                if xs.is_empty() {
+                    return None;
+                }
+                let input = Tensor::single(xs.clone());
+                let out = if dir == "forward" { f.forward(&input) } else { f.backward(&input) };
+                check_elementwise(act, dir, &case["term"], &case["range"], bool_of(case, "kink"), &xs, &flat(&out))
+            })
+            .collect();
+        rep.checks += (1u64 << 32) / stride;
+        rep.count("sweep_patterns", (1u64 << 32) / stride);
+        rep.nontrivial(format!("sweep:{}:{}", act, dir));
+        if let Some(d) = bad.first() {
+            rep.mismatch("C07", &format!("sweep_{}_{}", dir, d["what"].as_str().unwrap().replace(' ', "_")), &format!("activation:sweep:{}:{}", act, dir), d.clone(), case);
+        }
+    }
+}
